@@ -114,19 +114,19 @@ def _c19_replay(d, path, runmod):
 
 
 PROPS = {
-    "C01": {"id": "C01", "source": "c01.cpp", "files": INT_VEC_FILES, "min_configs": {"quick": 8, "thorough": 30},
+    "C01": {"id": "C01", "env_fuzz": (7, 0), "source": "c01.cpp", "files": INT_VEC_FILES, "min_configs": {"quick": 8, "thorough": 30},
             "configs": cfgs_with_san, "ub_is_violation": True, "digest_binding": True},
-    "C04": {"id": "C04", "source": "c04.cpp", "files": INT_VEC_FILES + SCALAR_FILES[:8], "min_configs": {"quick": 8, "thorough": 30},
+    "C04": {"id": "C04", "env_fuzz": (7, 0), "source": "c04.cpp", "files": INT_VEC_FILES + SCALAR_FILES[:8], "min_configs": {"quick": 8, "thorough": 30},
             "configs": cfgs_with_san, "ub_is_violation": True},
-    "C06": {"id": "C06", "source": "c06.cpp", "files": INT_VEC_FILES + SCALAR_FILES[:8] + ["include/avel/impl/Constants.hpp"], "min_configs": {"quick": 8, "thorough": 30},
+    "C06": {"id": "C06", "env_fuzz": (7, 0), "source": "c06.cpp", "files": INT_VEC_FILES + SCALAR_FILES[:8] + ["include/avel/impl/Constants.hpp"], "min_configs": {"quick": 8, "thorough": 30},
             "configs": cfgs_scalar_sets},
-    "C07": {"id": "C07", "source": "c07.cpp", "files": INT_VEC_FILES + FLT_VEC_FILES + SCALAR_FILES, "min_configs": {"quick": 8, "thorough": 30}},
-    "C05": {"id": "C05", "source": "c05.cpp", "files": INT_VEC_FILES, "min_configs": {"quick": 8, "thorough": 30}, "scale": {"quick": 300, "thorough": 300}},
-    "C03": {"id": "C03", "source": "c03.cpp", "files": INT_VEC_FILES + FLT_VEC_FILES, "min_configs": {"quick": 8, "thorough": 30}, "optional_classes": ["noncanonical_representation_seen"],
+    "C07": {"id": "C07", "env_fuzz": (7, 1), "source": "c07.cpp", "files": INT_VEC_FILES + FLT_VEC_FILES + SCALAR_FILES, "min_configs": {"quick": 8, "thorough": 30}},
+    "C05": {"id": "C05", "env_fuzz": (7, 0), "source": "c05.cpp", "files": INT_VEC_FILES, "min_configs": {"quick": 8, "thorough": 30}, "scale": {"quick": 300, "thorough": 300}},
+    "C03": {"id": "C03", "env_fuzz": (7, 7), "source": "c03.cpp", "files": INT_VEC_FILES + FLT_VEC_FILES, "min_configs": {"quick": 8, "thorough": 30}, "optional_classes": ["noncanonical_representation_seen"],
             "max_success": {"quick": 1500, "thorough": 20000}},
-    "C08": {"id": "C08", "fuzz": True, "full_O0": True, "source": "c08.cpp", "files": INT_VEC_FILES + FLT_VEC_FILES, "min_configs": {"quick": 8, "thorough": 30}, "configs": cfgs_with_O0,
+    "C08": {"id": "C08", "env_fuzz": (7, 7), "fuzz": True, "full_O0": True, "source": "c08.cpp", "files": INT_VEC_FILES + FLT_VEC_FILES, "min_configs": {"quick": 8, "thorough": 30}, "configs": cfgs_with_O0,
             "optional_classes": ["range_ends_at_guard_page", "range_starts_after_guard_page", "wild_index_in_inactive_lane", "n_zero_pointer_into_guard_page"]},
-    "C09": {"id": "C09", "full_O0": True, "source": "c08.cpp", "cxxflags": ["-DVP_PROP_C09", "-pthread"], "ldflags": ["-pthread"], "files": INT_VEC_FILES + FLT_VEC_FILES, "min_configs": {"quick": 8, "thorough": 30}, "configs": cfgs_with_O0,
+    "C09": {"id": "C09", "env_fuzz": (7, 7), "full_O0": True, "source": "c08.cpp", "cxxflags": ["-DVP_PROP_C09", "-pthread"], "ldflags": ["-pthread"], "files": INT_VEC_FILES + FLT_VEC_FILES, "min_configs": {"quick": 8, "thorough": 30}, "configs": cfgs_with_O0,
             "optional_classes": ["unaligned_address", "negative_index", "ordinary"]},
     "C10": {"id": "C10", "source": "c10.cpp", "files": FLT_VEC_FILES + SCALAR_FILES[8:], "min_configs": {"quick": 8, "thorough": 30}, "configs": cfgs_default_fp,
             "cxxflags": ["-frounding-math", "-ffp-contract=off"], "ref_sources": FPREF, "max_success": {"quick": 1000, "thorough": 10000}},
@@ -134,21 +134,21 @@ PROPS = {
             "cxxflags": ["-frounding-math", "-ffp-contract=off"], "ref_sources": FPREF, "optional_classes": ["zero_sign_differs_from_libm"]},
     "C12": {"id": "C12", "source": "c12.cpp", "files": FLT_VEC_FILES + SCALAR_FILES[8:], "min_configs": {"quick": 8, "thorough": 30},
             "cxxflags": ["-frounding-math", "-ffp-contract=off"], "ref_sources": FPREF},
-    "C13": {"id": "C13", "source": "c13.cpp", "files": FLT_VEC_FILES + SCALAR_FILES[8:], "min_configs": {"quick": 8, "thorough": 30},
+    "C13": {"id": "C13", "env_fuzz": (0, 1), "source": "c13.cpp", "files": FLT_VEC_FILES + SCALAR_FILES[8:], "min_configs": {"quick": 8, "thorough": 30},
             "cxxflags": ["-frounding-math", "-ffp-contract=off"], "ref_sources": FPREF},
-    "C14": {"id": "C14", "fuzz": True, "source": "c14.cpp", "files": ["include/avel/impl/denominators/Denominator%s.hpp" % s for s in ("8u", "8i", "16u", "16i", "32u", "32i", "64u", "64i")] + ["include/avel/impl/scalars/Scalars.hpp"],
+    "C14": {"id": "C14", "env_fuzz": (7, 0), "fuzz": True, "source": "c14.cpp", "files": ["include/avel/impl/denominators/Denominator%s.hpp" % s for s in ("8u", "8i", "16u", "16i", "32u", "32i", "64u", "64i")] + ["include/avel/impl/scalars/Scalars.hpp"],
             "min_configs": {"quick": 8, "thorough": 30}, "configs": cfgs_scalar_sets, "optional_classes": ["distinct_divisors_in_lanes", "broadcast_from_scalar_denominator"], "max_success": {"quick": 3000, "thorough": 50000}},
-    "C15": {"id": "C15", "source": "c14.cpp", "cxxflags": ["-DVP_PROP_C15"], "files": [f.replace("vectors/Vec", "denominator_vectors/Denominator") for f in INT_VEC_FILES], "min_configs": {"quick": 8, "thorough": 30}},
+    "C15": {"id": "C15", "env_fuzz": (7, 0), "source": "c14.cpp", "cxxflags": ["-DVP_PROP_C15"], "files": [f.replace("vectors/Vec", "denominator_vectors/Denominator") for f in INT_VEC_FILES], "min_configs": {"quick": 8, "thorough": 30}},
     "C16": {"id": "C16", "fuzz": True, "source": "c16.cpp", "files": SCALAR_FILES + [VEC + "Vec1x%s.hpp" % s for s in ("8u", "8i", "16u", "16i", "32u", "32i", "64u", "64i", "32f", "64f")],
             "min_configs": {"quick": 8, "thorough": 30}, "configs": cfgs_scalar_sets, "cxxflags": ["-frounding-math", "-ffp-contract=off"], "ref_sources": FPREF,
             "optional_classes": ["scalar_and_vector_differ_only_in_zero_sign"]},
-    "C17": {"id": "C17", "source": "c17.cpp", "files": INT_VEC_FILES + [VEC + "Vectors.hpp", "include/avel/Misc.hpp"], "min_configs": {"quick": 8, "thorough": 30}},
+    "C17": {"id": "C17", "env_fuzz": (7, 1), "source": "c17.cpp", "files": INT_VEC_FILES + [VEC + "Vectors.hpp", "include/avel/Misc.hpp"], "min_configs": {"quick": 8, "thorough": 30}},
     "C18": {"id": "C18", "fuzz": lambda inc: [C.Config([], std="c++11"), C.Config([], std="c++17"), C.Config(["SSE2"])], "fuzz_runs": 50000, "source": "c18.cpp", "files": ["include/avel/Aligned_allocator.hpp"], "min_configs": {"quick": 6, "thorough": 10}, "configs": cfgs_alloc, "ub_is_violation": True,
             "max_success": {"quick": 500, "thorough": 20000}},
     "C20": {"id": "C20", "full_O0": True, "source": "c20.cpp", "files": ["include/avel/Cache.hpp"], "min_configs": {"quick": 6, "thorough": 12}, "configs": cfgs_prefetch, "max_success": {"quick": 3000, "thorough": 100000},
             "optional_classes": []},
     "C19": {"id": "C19", "custom": _c19_run, "custom_replay": _c19_replay, "files": []},
-    "C02": {"id": "C02", "source": "c02.cpp", "files": INT_VEC_FILES + FLT_VEC_FILES, "min_configs": {"quick": 8, "thorough": 30}, "digest_binding": True},
+    "C02": {"id": "C02", "env_fuzz": (7, 1), "source": "c02.cpp", "files": INT_VEC_FILES + FLT_VEC_FILES, "min_configs": {"quick": 8, "thorough": 30}, "digest_binding": True},
 }
 
 MANIFEST_TEXT = {
